@@ -893,6 +893,35 @@ var rR11 = RuleRef{Name: "R11", Doc: "fragmentation independence, structural par
 			if st, ok := in.(*ssa.Store); ok && cell != nil && st.Addr == cell {
 				s = Set{"RESET": true}
 			}
+			// the same reset spelled field by field (func (s *readState) reset() { s.a = 0; s.b = nil; ... }): complete
+			// when every field of the record has received its zero value
+			if st, ok := in.(*ssa.Store); ok && cell != nil {
+				if fa, ok := st.Addr.(*ssa.FieldAddr); ok && fa.X == cell {
+					if pt, ok := cell.Type().Underlying().(*types.Pointer); ok {
+						if str, ok := pt.Elem().Underlying().(*types.Struct); ok {
+							zero := false
+							if k, isC := st.Val.(*ssa.Const); isC {
+								zero = k.Value == nil || k.Value.ExactString() == "0" || k.Value.ExactString() == "false" || k.Value.ExactString() == `""`
+							}
+							key := fmt.Sprintf("Z|%d", fa.Field)
+							if zero {
+								s[key] = true
+								all := true
+								for i := 0; i < str.NumFields(); i++ {
+									if !s[fmt.Sprintf("Z|%d", i)] {
+										all = false
+									}
+								}
+								if all {
+									s = Set{"RESET": true}
+								}
+							} else {
+								delete(s, key)
+							}
+						}
+					}
+				}
+			}
 			if call, ok := in.(*ssa.Call); ok && depth < 3 {
 				if cf := callee(call); cf != nil && firstParty(cf) && pkgRel(cf) == "resp" && cf != fn {
 					if sp := stateParam(cf); sp != nil {
@@ -1421,11 +1450,12 @@ var rR24 = RuleRef{Name: "R24", Doc: "replica determinism and snapshots: executo
 							purpose = "the local clock is compared with a stored deadline (lazy expiry / TTL reply)"
 						}
 					case token.ADD, token.SUB, token.MUL, token.QUO:
-						fwd(x, d+1)
-					}
-					// TTL reply: deadline - now
-					if x.Op == token.SUB && purpose == "" && readsDeadline(x.X) {
-						purpose = "the local clock is compared with a stored deadline (lazy expiry / TTL reply)"
+						// TTL reply: deadline - now (also when the difference is what a helper returns)
+						if x.Op == token.SUB && readsDeadline(x.X) {
+							purpose = "the local clock is compared with a stored deadline (lazy expiry / TTL reply)"
+						} else {
+							fwd(x, d+1)
+						}
 					}
 				case *ssa.Call:
 					if cf := x.Call.StaticCallee(); cf != nil {
